@@ -16,6 +16,7 @@ alternatives that pass through a quoting call are judged: the other branch is ta
 import ast
 
 from sa.cfg import expr_guards
+from sa.cfg import facts as _facts
 from sa.consteval import Folder
 from sa.model import AnalysisError, Finding, FunctionInfo, loc, names_in, src
 
@@ -128,9 +129,21 @@ class Hole(object):
             v = r.value
             identity = isinstance(v, ast.Name) and v.id == p
             if not identity:
+                # `return quote(p)`: empty when the inner step hands an empty p back - unless a guard on the way has excluded it
+                if depth < 4 and isinstance(v, ast.Call) and any(isinstance(a, ast.Name) and a.id == p for a in v.args) \
+                        and not any(_guard_admits_empty(t, pol, p) is False for t, pol in expr_guards(r, stop=fi.node)) \
+                        and self.may_be_empty(v, fi, depth + 1):
+                    return True
                 continue
-            verdicts = [_guard_admits_empty(t, pol, p) for t, pol in expr_guards(r, stop=fi.node)]
+            guards = list(expr_guards(r, stop=fi.node))
+            verdicts = [_guard_admits_empty(t, pol, p) for t, pol in guards]
             if any(x is False for x in verdicts):
+                continue
+            # `if not needs_quoting(typ): return default`: the arm for the types that are written bare - the rule judges what goes
+            # through the quoting step (an inline `quote(d) if needs_quoting(typ) else d` is read the same way, see _passes_quoting)
+            if any(isinstance(c, ast.Call) and isinstance(c.func, (ast.Name, ast.Attribute)) and not pol_ and any(
+                    isinstance(t_, FunctionInfo) and t_.qualname.endswith("needs_quoting") for t_ in self.prog.resolve_expr_fn(c.func, c))
+                    for g, pol in guards for c, pol_ in _facts(g, pol)):
                 continue
             self.why.append("%s returns its argument unchanged %s (%s)" % (
                 fi.qualname, "when it is empty" if any(x is True for x in verdicts) else "on a path an empty argument can take", loc(self.prog, r)))
@@ -520,6 +533,14 @@ def _key_test(atom, key):
     return None
 
 
+def _key_test_in(test, key):
+    """True when the condition tests the record's `key` somewhere, else False"""
+    for x in ast.walk(test):
+        if isinstance(x, (ast.Compare, ast.Subscript, ast.Call)) and _key_test(x, key) is not None:
+            return True
+    return False
+
+
 def _dnf(test, polarity):
     """alternatives (lists of (atom, polarity)) under which `test` has truth value `polarity`"""
     if isinstance(test, ast.UnaryOp) and isinstance(test.op, ast.Not):
@@ -567,6 +588,16 @@ def rule_prose_gate(prog, rep, tier, writer="defaults_utils.set_default_doc", en
     if not announcing:
         raise AnalysisError("PROSE-GATE: no statement of %s writes the default announcement" % writer)
     # ---- writer clause
+    # the conditions the announcing statements stand under: a path that came as far as one of them and turned away did so for that
+    # condition's reason (flag off, already announced, no default, **kwargs), not because prose is missing
+    deciding = set()
+    for x in ast.walk(W.node):
+        if id(x) in announcing:
+            p_ = getattr(x, "_parent", None)
+            while p_ is not None and p_ is not W.node:
+                if isinstance(p_, (ast.If, ast.While)):
+                    deciding.add(id(p_.test))
+                p_ = getattr(p_, "_parent", None)
     cfg = CFG(W.node)
     n_paths = n_bad = 0
     example = None
@@ -574,6 +605,8 @@ def rule_prose_gate(prog, rep, tier, writer="defaults_utils.set_default_doc", en
         if path[-1][0].kind != "RETURN":
             continue
         if any(id(node.stmt) in announcing for node, _ in path):
+            continue
+        if any(label is not None and label[0] not in ("iter", "except") and id(label[0]) in deciding and _key_test_in(label[0], "doc") is False for _, label in path):
             continue
         n_paths += 1
         alts = [[]]
@@ -804,12 +837,23 @@ def rule_getvalue_part(prog, rep, tier, anchor="ast_utils.get_value"):
             if label is None or label[0] in ("iter", "except"):
                 continue
             union = set()
-            for alt in _dnf(label[0], label[1]):
+            # the condition with single-return predicate helpers written out (`_is_holder(node)` -> `isinstance(node, _HOLDER_TYPES)`)
+            try:
+                test_ = prog.see_through(label[0])
+            except Exception:
+                test_ = label[0]
+            for alt in _dnf(test_, label[1]):
                 adm = set(admitted)
                 for atom, pol in alt:
                     if isinstance(atom, ast.Call) and isinstance(atom.func, ast.Name) and atom.func.id == "isinstance" and len(atom.args) == 2 \
                             and isinstance(atom.args[0], ast.Name) and atom.args[0].id == p0:
-                        names = {x.id for x in ast.walk(atom.args[1]) if isinstance(x, ast.Name)} | {x.attr for x in ast.walk(atom.args[1]) if isinstance(x, ast.Attribute)}
+                        classes = atom.args[1]
+                        if isinstance(classes, ast.Name):
+                            # a tuple of classes hoisted into a module constant
+                            b = prog.lookup(classes.id, label[0])
+                            if b[0] == "value":
+                                classes = b[2]
+                        names = {x.id for x in ast.walk(classes) if isinstance(x, ast.Name)} | {x.attr for x in ast.walk(classes) if isinstance(x, ast.Attribute)}
                         if pol:
                             adm &= names
                         else:
